@@ -451,6 +451,11 @@ func (g *G) addAddress(bs *schema.BlockSchema) {
 			ad.Steps = append(ad.Steps, schema.LabelStep{Index: uint(i)})
 		}
 	}
+	if len(ad.Steps) == 0 {
+		// an address starts with a static name or a label (an optional attribute value
+		// alone would make the whole address optional)
+		ad.Steps = append(ad.Steps, schema.StaticStep{Name: g.id("r")})
+	}
 	if bs.Body != nil && bs.Body.AnyAttribute == nil && g.coin(0.2) {
 		name := g.id("alias")
 		bs.Body.Attributes[name] = &schema.AttributeSchema{IsOptional: true, Constraint: schema.LiteralType{Type: cty.String}, Description: g.desc("alias")}
